@@ -43,8 +43,12 @@ def specs(tier):
                      'development/5.1',
                      ops=['push', 'rebase', 'eval_pr', 'merge_pr2',
                           'manual']),
-                id10_spec(1, ops=['push', 'eval_pr', 'merge_pr2'])]
-    return [id10_spec(2),spec('c15-noq-D3', 'D3', False, 3, 'development/4.3',
+                id10_spec(1, ops=['push', 'eval_pr', 'merge_pr2']),
+                spec('c15-noq-F3', 'F3', False, 2, 'development/4.3',
+                     'development/5.1', ops=['manual', 'eval_pr'])]
+    return [id10_spec(2),
+            spec('c15-noq-F3', 'F3', False, 3, 'development/4.3',
+                 'development/5.1'),spec('c15-noq-D3', 'D3', False, 3, 'development/4.3',
                  'development/5.1'),
             spec('c15-q-D3', 'D3', True, 3, 'development/4.3',
                  'development/5.1'),
